@@ -49,9 +49,9 @@ Theorem C12_population_load_fail_untouched : forall (I : Type) iload (idflt : I)
 Proof. exact pop_fu. Qed.
 Print Assumptions C12_population_load_fail_untouched.
 
-Theorem C12_summary_load_fail_untouched : forall read_f (I : Type) iload (idflt : I) s t,
-  ret (summary_load read_f I iload idflt s t) = false -> target (summary_load read_f I iload idflt s t) = t.
-Proof. exact summary_fu. Qed.
+Theorem C12_summary_load_fail_untouched : forall read_f (I : Type) iload (idflt : I) eread s t,
+  ret (summary_load read_f I iload idflt eread s t) = false -> target (summary_load read_f I iload idflt eread s t) = t.
+Proof. intros read_f I iload idflt eread. exact (summary_fu read_f I iload idflt eread). Qed.
 Print Assumptions C12_summary_load_fail_untouched.
 
 Theorem C12_distribution_load_fail_untouched : forall read_f s t,
